@@ -388,6 +388,31 @@ func runC04(c *h.Ctx) {
 			c.Sample("near-miss", map[string]string{"input": nm[0], "rule": nm[1]})
 		}
 	}
+	// near-miss by construction: a character outside ASCII that is not an
+	// identifier character, in every keyword / operator / punctuation slot of
+	// valid paths. The whole Unicode private use block U+E000..U+E0FF is
+	// tried: the token numbers of the generated parser start at 57346
+	// (U+E002), and a raw character must never stand in for a token.
+	{
+		var runes []rune
+		for x := rune(0xe000); x <= 0xe0ff; x++ {
+			runes = append(runes, x)
+		}
+		runes = append(runes, 0xd7, 0xf7, 0x2260, 0x2264, 0x2265, 0x2227, 0x2228, 0xac, 0xff04, 0xff20, 0xff0e, 0xff3b, 0x3000, 0xa0, 0x2028, 0x200b, 0xfeff, 0xf8ff, 0xf0000, 0x10fffd, 0xfffd, 0x2026)
+		slots := []string{"$[1 %s 2]", "$ %s 1", "%s $.a", "%s$.a", "$.a %s", "$ ? (@ %s 1)", "$.a %s \"x\"", "$ ? (@.a %s)", "$.a.%s()", "$%s", "$.%s", "$[%s]", "$[0 %s]",
+			"$ ? (%s(@.a))", "($.a == 1) %s unknown", "($.a == 1) is %s", "$ starts %s \"a\"", "$ %s with \"a\"", "$ like_regex \"a\" %s \"i\"", "$ %s \"a\"", "%s",
+			"$.**{1 %s 2}", "$.**{%s}", "$.**{%s to 1}", "-%s", "$.a == %s", "$.a %s $.b", "$.a.decimal(%s)", "$.a.datetime(%s)", "$ %s", "($.a == 1) %s ($.b == 2)", "%s($.a == 1)"}
+		k := 0
+		for _, sl := range slots {
+			for _, x := range runes {
+				k++
+				if c.Mine(k) {
+					check(strings.Replace(sl, "%s", string(x), 1), "non-ascii-token")
+				}
+			}
+		}
+		c.Sample("near-miss", map[string]string{"input": "$[1 \ue002 2]", "rule": "non-ascii-token"})
+	}
 	// near-miss by construction: NUL byte / invalid UTF-8 at every position of valid paths
 	rg := c.Rand("c04-corpus")
 	g := &gen.G{R: rg, C: gen.DefaultCfg()}
